@@ -76,7 +76,8 @@ type skCmd struct {
 	TNeg  bool       // test
 	P, P2 []*skStmt  // bodies (P2: then / loop body)
 	X, Y  *skStmt    // and or pipe
-	W     []skPart   // echo assign case
+	W     []skPart   // echo assign case; echosub: before the substitution
+	W2    []skPart   // echosub: after the substitution
 	Name  string     // variable / function name
 	Lit   string     // test literal; "true" spelling
 	Else  *skElse    // if
@@ -151,6 +152,14 @@ func skCmdSexp(sb *strings.Builder, c *skCmd) {
 		skProgSexp(sb, c.P)
 	case "echo":
 		skHexParts(sb, c.W)
+	case "echosub":
+		sb.WriteString(" (")
+		skHexParts(sb, c.W)
+		sb.WriteString(" ) (")
+		skProgSexp(sb, c.P)
+		sb.WriteString(" ) (")
+		skHexParts(sb, c.W2)
+		sb.WriteString(" )")
 	case "test":
 		sb.WriteString(" " + hx(c.Name) + " " + b01(c.TNeg) + " " + hx(c.Lit))
 	case "assign":
@@ -319,6 +328,9 @@ func skCmdText(c *skCmd) string {
 		return "trap '" + skProgText(c.P, "; ") + "' " + sig
 	case "echo":
 		return "echo " + skWordText(c.W)
+	case "echosub":
+		a, b := skWordText(c.W), skWordText(c.W2)
+		return "echo " + a[:len(a)-1] + "$( " + skProgText(c.P, "; ") + " )" + b[1:]
 	case "test":
 		op := "="
 		if c.TNeg {
@@ -680,6 +692,41 @@ func (cv *skConv) call(ce *syntax.CallExpr) (*skCmd, bool) {
 		}
 		return &skCmd{K: k, P: p}, true
 	case "echo":
+		if len(args) == 1 && len(args[0].Parts) == 1 {
+			if dq, ok := args[0].Parts[0].(*syntax.DblQuoted); ok && !dq.Dollar {
+				at := -1
+				for i, q := range dq.Parts {
+					if _, ok := q.(*syntax.CmdSubst); ok {
+						if at >= 0 {
+							return nil, cv.fail("two command substitutions in a word")
+						}
+						at = i
+					}
+				}
+				if at >= 0 {
+					cs := dq.Parts[at].(*syntax.CmdSubst)
+					if cs.TempFile || cs.ReplyVar || len(cs.Stmts) == 0 {
+						return nil, cv.fail("command substitution form")
+					}
+					part := func(ps []syntax.WordPart) ([]skPart, bool) {
+						if len(ps) == 0 {
+							return nil, true
+						}
+						return cv.word(&syntax.Word{Parts: []syntax.WordPart{&syntax.DblQuoted{Parts: ps}}}, false)
+					}
+					w1, ok1 := part(dq.Parts[:at])
+					w2, ok2 := part(dq.Parts[at+1:])
+					if !ok1 || !ok2 {
+						return nil, false
+					}
+					p, ok := cv.prog(cs.Stmts)
+					if !ok {
+						return nil, false
+					}
+					return &skCmd{K: "echosub", W: w1, P: p, W2: w2}, true
+				}
+			}
+		}
 		var w []skPart
 		for i, a := range args {
 			if l := a.Lit(); l == "-n" || l == "-e" || l == "-E" || l == "-ne" || l == "-en" || (i == 0 && strings.HasPrefix(l, "-")) {
@@ -1024,7 +1071,7 @@ func skSupCmd(k skCtx, c *skCmd) bool {
 		return k.top && skSimpleTrap(c.P)
 	case "traperr":
 		return len(c.P) == 0
-	case "asub":
+	case "asub", "echosub":
 		return !(k.e && (k.ign || k.unk)) && skSupProg(skSubCtx(k), false, c.P)
 	case "subsh":
 		return !(k.e && (k.ign || k.unk)) && skSupProg(skSubCtx(k), false, c.P)
@@ -1168,7 +1215,7 @@ func skBashRacy(p []*skStmt) bool {
 	writes = func(s *skStmt) bool {
 		w := false
 		skWalk([]*skStmt{s}, func(t *skStmt) {
-			if t.C.K == "echo" || t.C.K == "call" {
+			if t.C.K == "echo" || t.C.K == "echosub" || t.C.K == "call" {
 				w = true
 			}
 		})
@@ -1351,6 +1398,14 @@ func (g *skGen) atom(k skCtx) *skCmd {
 	}
 }
 
+// c26FailAtom: a command that ends a substitution with a non-zero status.
+func c26FailAtom(r *Rand) *skCmd {
+	if r.Bool() {
+		return &skCmd{K: "false"}
+	}
+	return &skCmd{K: "exit", N: intp(c26PickInt(r, []int{1, 3, 7}))}
+}
+
 func c26PickInt(r *Rand, s []int) int { return s[r.Intn(len(s))] }
 
 func (g *skGen) prog(k skCtx, tailRule bool, depth, maxLen int) []*skStmt {
@@ -1407,6 +1462,21 @@ func (g *skGen) stmt(k skCtx, depth int) *skStmt {
 		case c < 6:
 			if !noSub || g.wildly() {
 				p := g.prog(skSubCtx(k), false, depth-1, 3)
+				if r.Intn(5) < 2 {
+					// a substitution in an argument: its status goes to lastExpandExit and must not
+					// be seen by anything later; make it fail often
+					if r.Bool() {
+						p = append(p, &skStmt{C: c26FailAtom(r)})
+					}
+					var w1, w2 []skPart
+					if r.Bool() {
+						w1 = []skPart{{K: 'l', S: r.Pick(skLits)}}
+					}
+					if r.Intn(3) == 0 {
+						w2 = g.word(false)
+					}
+					return &skStmt{C: &skCmd{K: "echosub", W: w1, P: p, W2: w2}}
+				}
 				return &skStmt{C: &skCmd{K: "asub", Name: r.Pick(skVars), P: p}}
 			}
 		case c < 9:
@@ -1537,6 +1607,52 @@ func skNoFnOperand(s *skStmt) *skStmt {
 	return s
 }
 
+// staleExpand: the two-step shape "a failing command substitution in an argument … ordinary
+// commands … a plain assignment whose status is observed" (`$?`, `||`, `set -e`, function return):
+// the substitution's status (Runner.lastExpandExit) must not leak into the later assignment.
+func (g *skGen) staleExpand(k skCtx) []*skStmt {
+	r := g.r
+	sub := []*skStmt{{C: &skCmd{K: "echo", W: []skPart{{K: 'l', S: r.Pick(skLits)}}}}, {C: c26FailAtom(r)}}
+	if r.Bool() {
+		sub = sub[1:]
+	}
+	seq := []*skStmt{{C: &skCmd{K: "echosub", W: []skPart{{K: 'l', S: "s"}}, P: sub}}}
+	for i, m := 0, r.Intn(3); i < m; i++ {
+		switch r.Intn(4) {
+		case 0:
+			seq = append(seq, &skStmt{C: &skCmd{K: "echo", W: g.word(false)}})
+		case 1:
+			seq = append(seq, &skStmt{C: &skCmd{K: "true", Lit: "true"}})
+		case 2:
+			seq = append(seq, &skStmt{C: &skCmd{K: "test", Name: "x", TNeg: true, Lit: "zz"}})
+		default:
+			seq = append(seq, &skStmt{C: &skCmd{K: "setpf", On: r.Bool()}})
+		}
+	}
+	asg := &skStmt{C: &skCmd{K: "assign", Name: r.Pick(skVars), W: []skPart{{K: 'l', S: r.Pick(skLits)}}}}
+	st := []skPart{{K: 'l', S: "q"}, {K: 's'}}
+	switch r.Intn(4) {
+	case 0: // $?
+		seq = append(seq, asg, &skStmt{C: &skCmd{K: "echo", W: st}})
+	case 1: // || branch
+		seq = append(seq, &skStmt{C: &skCmd{K: "or", X: asg, Y: &skStmt{C: &skCmd{K: "echo", W: []skPart{{K: 'l', S: "stale"}}}}}})
+	case 2: // if condition
+		seq = append(seq, &skStmt{C: &skCmd{K: "if", P: []*skStmt{asg}, P2: []*skStmt{{C: &skCmd{K: "echo", W: []skPart{{K: 'l', S: "ok"}}}}},
+			Else: &skElse{K: "els", T: []*skStmt{{C: &skCmd{K: "echo", W: []skPart{{K: 'l', S: "stale"}}}}}}}})
+	default: // function return value (and errexit when set -e is on)
+		if g.nfn < 3 && !k.unk {
+			g.nfn++
+			name := fmt.Sprintf("fn%d", g.nfn)
+			body := append(append([]*skStmt{}, seq...), asg)
+			return []*skStmt{{C: &skCmd{K: "fn", Name: name, Body: &skStmt{C: &skCmd{K: "block", P: body}}}},
+				{C: &skCmd{K: "or", X: &skStmt{C: &skCmd{K: "call", Name: name}}, Y: &skStmt{C: &skCmd{K: "echo", W: st}}}},
+				{C: &skCmd{K: "echo", W: st}}}
+		}
+		seq = append(seq, asg, &skStmt{C: &skCmd{K: "echo", W: st}})
+	}
+	return seq
+}
+
 func (g *skGen) program() []*skStmt {
 	g.nfn, g.nloop = 0, 0
 	g.budget = 40 + g.r.Intn(60)
@@ -1546,7 +1662,14 @@ func (g *skGen) program() []*skStmt {
 		p = append(p, &skStmt{C: &skCmd{K: "sete", On: true}})
 	}
 	n := 3 + g.r.Intn(6)
+	at := -1
+	if g.r.Intn(3) == 0 {
+		at = g.r.Intn(n)
+	}
 	for i := 0; i < n; i++ {
+		if i == at {
+			p = append(p, g.staleExpand(k)...)
+		}
 		p = append(p, g.stmt(k, 3))
 	}
 	if g.r.Intn(3) == 0 {
